@@ -97,11 +97,29 @@ func c11GenRT(rng *sim.Rand) *c11MuxSc {
 			sc.Gens[i].Edits = append(sc.Gens[i].Edits, "server-ipfilter")
 		}
 	}
+	// maxConnections is a hot field as well
+	if rng.Bool(0.4) {
+		mc := rng.Pick(0, 0, 1, 2, 100)
+		for i := range sc.Gens {
+			if i > 0 && rng.Bool(0.4) {
+				mc = rng.Pick(0, 1, 2, 3, 100)
+				sc.Gens[i].Edits = append(sc.Gens[i].Edits, "maxConnections")
+			}
+			sc.Gens[i].MaxConn = mc
+		}
+	}
 	for ci := range sc.Clients {
+		// half of the clients are keep-alive clients: one source address, most
+		// requests leave the connection open for the next one
+		keepAlive := rng.Bool(0.5)
 		for qi := range sc.Clients[ci].Reqs {
 			q := &sc.Clients[ci].Reqs[qi]
 			if rng.Bool(0.7) {
 				q.Hold = rng.Range(2, 8)
+			}
+			if keepAlive {
+				q.IP = sc.Clients[ci].Reqs[0].IP
+				q.KA = rng.Bool(0.8)
 			}
 		}
 	}
@@ -131,7 +149,7 @@ func c11GenRT(rng *sim.Rand) *c11MuxSc {
 }
 
 // c11RawRequest renders the request as HTTP/1.1 bytes.
-func c11RawRequest(q *c11Req, id string) []byte {
+func c11RawRequest(q *c11Req, id string, keep bool) []byte {
 	var sb strings.Builder
 	fmt.Fprintf(&sb, "%s %s HTTP/1.1\r\nHost: %s\r\n", q.Method, q.Path, q.Host)
 	for _, kv := range q.Hdr {
@@ -139,7 +157,10 @@ func c11RawRequest(q *c11Req, id string) []byte {
 			fmt.Fprintf(&sb, "%s: %s\r\n", kv.K, kv.V)
 		}
 	}
-	fmt.Fprintf(&sb, "X-C11-Id: %s\r\nConnection: close\r\n", id)
+	fmt.Fprintf(&sb, "X-C11-Id: %s\r\n", id)
+	if !keep {
+		sb.WriteString("Connection: close\r\n")
+	}
 	if q.Body > 0 {
 		fmt.Fprintf(&sb, "Content-Length: %d\r\n", q.Body)
 	}
@@ -160,7 +181,7 @@ func c11ExecRT(r *sim.Run, sc *c11MuxSc) {
 	var texts []string
 	for i := range sc.Gens {
 		g := &sc.Gens[i]
-		if !c11SrvValid(g) || g.CacheSize < 0 || g.MaxBody != sc.Gens[0].MaxBody {
+		if !c11SrvValid(g) || g.CacheSize < 0 || g.MaxBody != sc.Gens[0].MaxBody || g.MaxConn < 0 || g.MaxConn > 100000 {
 			return
 		}
 		txt := c11SrvText("c11", g)
@@ -384,6 +405,9 @@ func c11ExecRT(r *sim.Run, sc *c11MuxSc) {
 				r.Eventf("binds of the port fail from now on")
 			}
 			restartType := sc.Gens[g].KA != sc.Gens[g-1].KA
+			if sc.Gens[g].MaxConn != sc.Gens[g-1].MaxConn {
+				r.Probe("c11.rt.update_changes_max_connections")
+			}
 			wasFailed := rt.getState() == stateFailed
 			if restartType {
 				setDown(true)
@@ -446,6 +470,15 @@ func c11ExecRT(r *sim.Run, sc *c11MuxSc) {
 		ci := ci
 		reqs := sc.Clients[ci].Reqs
 		r.Go(fmt.Sprintf("client%d", ci), func() {
+			// the connection a keep-alive request left open, its reader and source address
+			var kc net.Conn
+			var kbr *bufio.Reader
+			kIP := ""
+			defer func() {
+				if kc != nil {
+					kc.Close()
+				}
+			}()
 			for qi := range reqs {
 				if r.Aborted() {
 					return
@@ -475,7 +508,27 @@ func c11ExecRT(r *sim.Run, sc *c11MuxSc) {
 				lo := done
 				startedAtDial, updatingAtDial := started, updating
 				downAtDial, epochAtDial := maybeDown, downEpoch
-				conn, err := n.DialFrom(stdcontext.Background(), q.IP, "front.test:10080")
+				var conn net.Conn
+				var br *bufio.Reader
+				var err error
+				reused := false
+				if kc != nil && kIP == q.IP {
+					conn, br, reused = kc, kbr, true
+					kc, kbr = nil, nil
+					r.Probe("c11.rt.request_on_kept_alive_connection")
+					if lo > 0 {
+						r.Probe("c11.rt.request_on_connection_kept_alive_across_update")
+					}
+				} else {
+					if kc != nil {
+						kc.Close()
+						kc, kbr = nil, nil
+					}
+					conn, err = n.DialFrom(stdcontext.Background(), q.IP, "front.test:10080")
+					if err == nil {
+						br = bufio.NewReader(conn)
+					}
+				}
 				if err != nil && (downAtDial || maybeDown || downEpoch != epochAtDial) {
 					// the server is down for a reason the scenario contains: not judged
 					r.Probe("c11.rt.dial_refused_while_server_down")
@@ -500,15 +553,25 @@ func c11ExecRT(r *sim.Run, sc *c11MuxSc) {
 				conn.SetDeadline(time.Now().Add(24 * time.Hour))
 				var resp *http.Response
 				var body []byte
-				_, err = conn.Write(c11RawRequest(q, id))
+				_, err = conn.Write(c11RawRequest(q, id, q.KA))
 				if err == nil {
-					resp, err = http.ReadResponse(bufio.NewReader(conn), nil)
+					resp, err = http.ReadResponse(br, nil)
 				}
 				if err == nil {
 					body, err = io.ReadAll(resp.Body)
 				}
-				conn.Close()
+				if err == nil && q.KA && !resp.Close && resp.ProtoAtLeast(1, 1) {
+					kc, kbr, kIP = conn, br, q.IP
+				} else {
+					conn.Close()
+				}
 				r.Yield("c11.rt.after")
+				if err != nil && reused && resp == nil && !f.entered && tries < 40 {
+					// the server may close an idle kept-alive connection at any time (idle
+					// timer during a stall, restart): like every HTTP client, try again on a fresh connection
+					r.Probe("c11.rt.kept_alive_connection_found_closed")
+					goto again
+				}
 				hi := started
 				if f.entered {
 					hi = f.hiAtHnd
